@@ -259,6 +259,160 @@ def inline_temporaries(fn, known, gen_methods=()):
     return out
 
 
+def module_constants(tree, known_names):
+    """{name: value node} of module-level names that did not exist when the rules were written, are bound exactly once,
+    at module level, to a literal table / constant built from side-effect-free parts (a dict, tuple, list, set,
+    frozenset(...), tuple(...) of names, attributes and constants), and are never rebound or mutated by name."""
+    out = {}
+    counts = {}
+    for n in ast.walk(tree):
+        for t in _assigned_texts(n):
+            counts[t] = counts.get(t, 0) + 1
+        if isinstance(n, ast.Global):
+            for nm in n.names:
+                counts[nm] = counts.get(nm, 0) + 5
+    for n in tree.body:
+        if isinstance(n, ast.Assign) and len(n.targets) == 1 and isinstance(n.targets[0], ast.Name):
+            name, val = n.targets[0].id, n.value
+        elif isinstance(n, ast.AnnAssign) and isinstance(n.target, ast.Name) and n.value is not None:
+            name, val = n.target.id, n.value
+        else:
+            continue
+        if name in known_names or counts.get(name, 0) != 1 or name.startswith('__'):
+            continue
+        inner = val
+        if isinstance(inner, ast.Call) and isinstance(inner.func, ast.Name) and inner.func.id in ('frozenset', 'tuple', 'set', 'dict', 'list') \
+                and len(inner.args) == 1 and not inner.keywords:
+            inner = inner.args[0]
+        if not isinstance(inner, (ast.Dict, ast.Tuple, ast.List, ast.Set, ast.Constant)):
+            continue
+        if not is_pure(val):
+            continue
+        inner_calls = [x for x in ast.walk(val) if isinstance(x, ast.Call) and x is not val]
+        if any(not (isinstance(x.func, ast.Attribute) and x.func.attr[:1].isupper()
+                    or isinstance(x.func, ast.Name) and x.func.id[:1].isupper()
+                    or src(x.func) == 're.compile') for x in inner_calls):
+            continue
+        # mutated through a method call (append / update / ...) anywhere?  then it is not a constant
+        mutated = False
+        for x in ast.walk(tree):
+            if isinstance(x, ast.Call) and isinstance(x.func, ast.Attribute) and isinstance(x.func.value, ast.Name) \
+                    and x.func.value.id == name and x.func.attr in ('append', 'extend', 'update', 'add', 'insert', 'pop', 'remove', 'clear',
+                                                                     'setdefault', 'discard', 'sort', 'reverse', 'popitem'):
+                mutated = True
+            if isinstance(x, (ast.Subscript,)) and isinstance(x.value, ast.Name) and x.value.id == name and isinstance(x.ctx, (ast.Store, ast.Del)):
+                mutated = True
+        if not mutated:
+            out[name] = val
+    return out
+
+
+def inline_module_constants(fn, consts):
+    """Uses of new module-level constant tables (see module_constants) are replaced by the literal, unless the function
+    binds the name itself."""
+    if not consts or not isinstance(fn, (ast.FunctionDef, ast.AsyncFunctionDef)):
+        return fn
+    nodes = list(_own_nodes(fn))
+    local = set()
+    for n in nodes:
+        local |= _assigned_texts(n)
+    local |= {a.arg for a in fn.args.posonlyargs + fn.args.args + fn.args.kwonlyargs}
+    uses = [x for x in nodes if isinstance(x, ast.Name) and isinstance(x.ctx, ast.Load) and x.id in consts and x.id not in local]
+    if not uses:
+        return fn
+    work = _relink(_strip(fn), getattr(fn, '_parent', None))
+
+    class _T(ast.NodeTransformer):
+        def visit_Name(self, node):
+            if isinstance(node.ctx, ast.Load) and node.id in consts and node.id not in local:
+                return ast.copy_location(_strip(consts[node.id]), node)
+            return node
+
+        def visit_FunctionDef(self, node):
+            if node is work:
+                self.generic_visit(node)
+            return node
+        visit_AsyncFunctionDef = visit_FunctionDef
+
+        def visit_Lambda(self, node):
+            return node
+    _T().visit(work)
+    _relink(work, getattr(fn, '_parent', None))
+    work._normalised = True
+    return work
+
+
+def unroll_literal_loops(fn):
+    """`for a, b in ((x1, y1), (x2, y2)): BODY` over a short literal sequence of side-effect-free items is the sequence
+    BODY[x1, y1]; BODY[x2, y2] - the same statements a hand-written chain has.  Only loops without break / continue /
+    else whose target is not rebound in the body are unrolled."""
+    if not isinstance(fn, (ast.FunctionDef, ast.AsyncFunctionDef)):
+        return fn
+
+    def eligible(loop):
+        it = loop.iter
+        if not isinstance(it, (ast.Tuple, ast.List)) or not (1 <= len(it.elts) <= 8) or loop.orelse:
+            return None
+        tgt = loop.target
+        names = [tgt.id] if isinstance(tgt, ast.Name) else ([e.id for e in tgt.elts] if isinstance(tgt, ast.Tuple) and all(
+            isinstance(e, ast.Name) for e in tgt.elts) else None)
+        if names is None:
+            return None
+        rows = []
+        for el in it.elts:
+            if isinstance(tgt, ast.Name):
+                row = [el]
+            elif isinstance(el, (ast.Tuple, ast.List)) and len(el.elts) == len(names):
+                row = list(el.elts)
+            else:
+                return None
+            if not all(is_pure(x) and isinstance(x, (ast.Name, ast.Attribute, ast.Constant)) for x in row):
+                return None
+            rows.append(row)
+        in_target = {id(x) for x in ast.walk(loop.target)}
+        for n in ast.walk(loop):
+            if n is loop or id(n) in in_target:
+                continue
+            if isinstance(n, (ast.Break, ast.Continue)):
+                inner = _enclosing(n, (ast.For, ast.While, ast.AsyncFor), None)
+                if inner is loop:
+                    return None
+            if _assigned_texts(n) & set(names):
+                return None
+            if isinstance(n, ast.Name) and n.id in names and not isinstance(n.ctx, ast.Load):
+                return None
+        return names, rows
+    loops = [n for n in _own_nodes(fn) if isinstance(n, ast.For) and eligible(n)]
+    if not loops:
+        return fn
+    work = _relink(_strip(fn), getattr(fn, '_parent', None))
+    for _ in range(6):
+        target = next((n for n in _own_nodes(work) if isinstance(n, ast.For) and eligible(n)), None)
+        if target is None:
+            break
+        names, rows = eligible(target)
+        new_body = []
+        for row in rows:
+            mapping = dict(zip(names, row))
+
+            class _S(ast.NodeTransformer):
+                def visit_Name(self, node):
+                    if isinstance(node.ctx, ast.Load) and node.id in mapping:
+                        return ast.copy_location(_strip(mapping[node.id]), node)
+                    return node
+            for st in target.body:
+                new_body.append(_S().visit(_strip(st)))
+        parent = target._parent
+        for field in ('body', 'orelse', 'finalbody'):
+            lst = getattr(parent, field, None)
+            if isinstance(lst, list) and target in lst:
+                i = lst.index(target)
+                lst[i:i + 1] = new_body
+        _relink(work, getattr(fn, '_parent', None))
+    work._normalised = True
+    return work
+
+
 # ---------------------------------------------------------------------------------------------------------------------
 def _branching(value):
     return isinstance(value, ast.IfExp)
